@@ -52,7 +52,7 @@ class VChan:
         self.closed = True
 
 
-def scenario(n_clients, with_bg, answer_order, chooser, sync_timeout=30, timeouts=None):
+def scenario(n_clients, with_bg, answer_order, chooser, sync_timeout=2.0, timeouts=None):
     """returns dict(result per client, events, lateness per client, deadlock, clock advances)"""
     codes = [P.Connection.serve.__code__, P.Connection._dispatch.__code__, P.Connection._seq_request_callback.__code__,
              P.Connection._async_request.__code__, P.Connection._get_seq_id.__code__,
@@ -64,7 +64,7 @@ def scenario(n_clients, with_bg, answer_order, chooser, sync_timeout=30, timeout
     old = (rpyc.lib.time, H.time)
     rpyc.lib.time = vt
     H.time = vt
-    out = {"results": {}, "late": {}, "dispatch_time": {}, "dispatch_count": {}, "return_time": {}, "seq_of": {}, "errors": {}}
+    out = {"res_obj": {}, "results": {}, "late": {}, "dispatch_time": {}, "dispatch_count": {}, "return_time": {}, "seq_of": {}, "errors": {}}
     try:
         ch = VChan(S, rec)
         conn = P.Connection(VoidService(), ch, {"sync_request_timeout": sync_timeout})
@@ -83,6 +83,7 @@ def scenario(n_clients, with_bg, answer_order, chooser, sync_timeout=30, timeout
         L_wait = find_line(A.AsyncResult.wait, "while not self._is_ready")
         L_ready = find_line(A.AsyncResult.__call__, "self._is_ready = True")
         L_bg = find_line(H.BgServingThread._bg_server, "while self._active")
+        L_seq = find_line(P.Connection._get_seq_id, "next(self._seqcounter)")
         orig_tracer = S.tracer
 
         def tracer():
@@ -91,12 +92,14 @@ def scenario(n_clients, with_bg, answer_order, chooser, sync_timeout=30, timeout
                     S.pos[S.me()] = (frame.f_code.co_name, frame.f_lineno)
                     S.yield_()
                     ln, co = frame.f_lineno, frame.f_code
-                    if co is A.AsyncResult.wait.__code__ and ln == L_wait:
+                    if co is P.Connection._get_seq_id.__code__ and ln == L_seq:
+                        rec(("issue", S.me()))
+                    elif co is A.AsyncResult.wait.__code__ and ln == L_wait:
                         rec(("step", S.me(), "looptest", None))
                     elif co is H.BgServingThread._bg_server.__code__ and ln == L_bg:
                         rec(("step", S.me(), "looptest", None))
                     elif co is A.AsyncResult.__call__.__code__ and ln == L_ready:
-                        q = frame.f_locals["self"]._seq_for_harness
+                        q = seq_by_res.get(id(frame.f_locals["self"]))
                         out["dispatch_time"][q] = S.now
                         out["dispatch_count"][q] = out["dispatch_count"].get(q, 0) + 1
                         rec(("step", S.me(), "dispatch", q))
@@ -107,33 +110,27 @@ def scenario(n_clients, with_bg, answer_order, chooser, sync_timeout=30, timeout
             return glob
         S.tracer = tracer
         # tag each AsyncResult with its sequence number (harness-side bookkeeping only)
-        orig_get = conn._get_seq_id
-
         class AR(A.AsyncResult):
             __slots__ = ["_seq_for_harness"]
         sent = []           # seqs whose request frame left
         answered = []
 
+        seq_by_res = {}
+
+        class RecDict(dict):
+            def __setitem__(self, k, v):
+                seq_by_res[id(v)] = k
+                dict.__setitem__(self, k, v)
+        conn._request_callbacks = RecDict()
+
         def client(i):
             def f():
                 payload = "p%d" % i
                 res = AR(conn)
-                rec(("issue", i))
-                # same statements as Connection.async_request, with our tagged result object
-                seq_holder = {}
-                real_async = conn._async_request
                 res._seq_for_harness = None
-                # we need the seq: peek the counter the same way _get_seq_id does, by wrapping it for this call
-                def tagged_get():
-                    q = orig_get()
-                    res._seq_for_harness = q
-                    out["seq_of"][i] = q
-                    return q
-                conn._get_seq_id = tagged_get
-                try:
-                    conn._async_request(consts.HANDLE_PING, (payload,), res)
-                finally:
-                    conn._get_seq_id = orig_get
+                out["res_obj"][i] = res
+                # the statements of Connection.async_request, with our own result object so that it can be identified later
+                conn._async_request(consts.HANDLE_PING, (payload,), res)
                 res.set_expiry(sync_timeout if timeouts is None else timeouts[i])
                 try:
                     out["results"][i] = res.value
@@ -141,6 +138,10 @@ def scenario(n_clients, with_bg, answer_order, chooser, sync_timeout=30, timeout
                     out["results"][i] = "EXC:" + type(e).__name__
                 out["return_time"][i] = S.now
             return f
+
+        def seq_of(i):
+            r = out["res_obj"].get(i)
+            return None if r is None else seq_by_res.get(id(r))
         stop = {"bg": None}
 
         def bg():
@@ -161,11 +162,12 @@ def scenario(n_clients, with_bg, answer_order, chooser, sync_timeout=30, timeout
                     reqs = [brine.load(d) for d in ch.out]
                     have = {m[1] for m in reqs if m[0] == consts.MSG_REQUEST}
                     pend = [c for c in order if c not in answered]
-                    return bool(pend) and out["seq_of"].get(pend[0]) in have
+                    return bool(pend) and seq_of(pend[0]) in have
                 if not S.block(ready, S.now + 10 * sync_timeout, why="peer"):
                     return
                 c = [c for c in order if c not in answered][0]
-                q = out["seq_of"][c]
+                q = seq_of(c)
+                out["seq_of"][c] = q
                 answered.append(c)
                 rec(("answer", q))
                 ch.inq.append(brine.dump((consts.MSG_REPLY, q, (consts.LABEL_VALUE, "p%d" % c))))
@@ -181,7 +183,8 @@ def scenario(n_clients, with_bg, answer_order, chooser, sync_timeout=30, timeout
         clock = []
 
         def on_clock(now, new):
-            clock.append({"from": now, "to": new, "inq": [brine.load(d)[1] for d in ch.inq],
+            if len(clock) < 40:
+              clock.append({"from": now, "to": new, "inq": [brine.load(d)[1] for d in ch.inq],
                           "blocked": {str(t): S.blocked.get(t, (None, None, ""))[2] for t in S.sem if t not in S.done}})
         S.on_clock = on_clock
         out["deadlock"] = None
@@ -193,6 +196,7 @@ def scenario(n_clients, with_bg, answer_order, chooser, sync_timeout=30, timeout
                 stop["bg"]._active = False
         out["clock"] = clock
         out["events"] = events
+        out.pop("res_obj", None)
         out["errors"].update({str(k): repr(v) for k, v in S.errors.items()})
         out["inq_left"] = [brine.load(d)[1] for d in ch.inq]
         out["pending_left"] = sorted(conn._request_callbacks.keys())
